@@ -73,6 +73,7 @@ def amin(
         poly, graded=options["sort_graded"], reverse=options["sort_reverse"]
     )
     indices = numpy.amin(proxy, axis=axis, **kwargs)
-    out = poly[numpy.isin(proxy, indices)]
-    out = out[numpy.argsort(indices.ravel())]
-    return numpoly.reshape(out, indices.shape)
+    # proxy is a permutation, so its argsort maps each rank to its position
+    positions = numpy.argsort(proxy.ravel())[numpy.asarray(indices).ravel()]
+    out = poly.ravel()[positions]
+    return numpoly.reshape(out, numpy.shape(indices))
